@@ -49,6 +49,9 @@ func BuildChild(kid Obj, labels map[string]interface{}, rev, extra string) Obj {
 		}
 		m["labels"] = l
 	}
+	// every desired child carries an annotation of the hook's own (metadata the hook specifies
+	// besides the labels that matter for claiming)
+	m["annotations"] = Obj{"hook-note": "note-" + value}
 	if extra, ok := kid["metaExtra"].(map[string]interface{}); ok {
 		for k, v := range extra {
 			m[k] = DeepCopyValue(v)
